@@ -356,6 +356,20 @@ fn rec_transforms(rc: &mut Rec, r: &mut ChaCha8Rng, lg_max: usize, full_n: usize
                 rc.evalpt("ifft", lg, k, 1, false, &iouts[0].1, n, &[full[k]], json!({"r": zr, "variant": iouts[0].0}));
             }
         }
+        // ---------------- contract: a root table built for another size is refused (fft_classic panics)
+        if lg <= 5 {
+            for other in [lg + 1, lg.saturating_sub(1)] {
+                if other == lg {
+                    continue;
+                }
+                let wrong = table_for(1 << other);
+                let inp = PolynomialCoeffs::new(fv(&gen_vec(r, n, lg)));
+                match guarded(|| fft_with_options(inp, None, Some(&wrong))) {
+                    Err(msg) => rc.panic("fft_with_options/table_of_other_size", true, &msg, json!({"lg": lg, "table_lg": other})),
+                    Ok(_) => rc.put(json!({"op": "note", "what": "a root table of another size was accepted", "lg": lg, "table_lg": other})),
+                }
+            }
+        }
         // ---------------- coset variants, every shift class
         let wn = root(lg);
         let rnd = r.gen::<u64>() % P;
@@ -1418,6 +1432,20 @@ fn bulk(args: &[String]) -> anyhow::Result<()> {
     };
     let mut bk = Bulk { cases: 0, nontrivial: 0, mism: vec![], digest: 0xcbf29ce484222325, reflog, refn: 0, fam_total: 0, fam_kept: 0, other_total: 0 };
     let mut r = rng(16);
+    // reference multiply-accumulate on the boundary lattice: logged for TLC (Limbs oracle and the fast MacEq of PolyOps)
+    if let Some(l) = bk.reflog.as_mut() {
+        let mut r = rng(17); // own stream: the transform inputs must not depend on --reflog
+        let bw = boundary_words();
+        for (i, &a) in bw.iter().enumerate() {
+            for (j, &b) in bw.iter().enumerate() {
+                if (i * 7 + j * 3) % 4 != 0 {
+                    continue;
+                }
+                let s0 = if (i + j) % 3 == 0 { bw[(i * j) % bw.len()] } else { r.gen::<u64>() };
+                l.put(&json!({"op": "mac", "s": limbs(s0), "a": limbs(a), "b": limbs(b), "r": limbs(r_add(s0, r_mul(a, b)))}));
+            }
+        }
+    }
     bulk_transforms(&mut bk, &mut r, lg_max, reps);
     let transform_digest = bk.digest;
     bulk_poly(&mut bk, &mut r, npoly);
